@@ -1449,10 +1449,10 @@ package main
 //@   holds c
 //@ immutable TCPBackend.localAddr
 //@ immutable TCPBackend.backendAddr
-//@ confined TCPBackend.conn: (*Proxy).receiveAndProcessMessage
+//@ guarded TCPBackend.conn
 //@ immutable TCPBackend.connectionEstablished
 //@ immutable UDPBackend.backendAddr
-//@ confined UDPBackend.udpConn: (*Proxy).receiveAndProcessMessage
+//@ immutable UDPBackend.udpConn
 //@ immutable TCPClientTransport.addr
 //@ immutable TCPClientTransport.localAddress
 //@ immutable TCPClientTransport.reconnectable
@@ -1463,5 +1463,9 @@ package main
 //@ immutable UDPClientTransport.localAddr
 //@ immutable UDPClientTransport.remoteAddr
 //@ confined FailOverClientTransport.primary: (*Proxy).receiveAndProcessMessage
-//@ immutable FailOverClientTransport.secondary
-//@ confined TCPServerTransport.exit: (*TCPServerTransport).receiveMessage
+//@ confined FailOverClientTransport.secondary: (*Proxy).receiveAndProcessMessage
+//@ atomicfield TCPServerTransport.exit
+
+//@ func (*TCPBackend).connect
+//@   holds t
+
